@@ -1,4 +1,6 @@
 import ErgoVerif.Lemmas.PermSafe
+import ErgoVerif.Lemmas.HandshakeSec
+import ErgoVerif.Model.CookieSel
 /-!
 # C15 — remote access control
 
@@ -128,5 +130,234 @@ example : isEnabledApp (after [.disableApp 0 [1], .enableApp 0 [1]]) 0 2 = .notA
 example : isEnabledApp (afterOld [.disableApp 0 [1], .enableApp 0 [1]]) 0 2 = .ok := by decide
 example : remoteSpawn defaultFlags defaultFlags (after [.enableSpawn 0 1 []]) 0 5 true [7] = .spawned 1 [7] := by decide
 example : remoteSpawn defaultFlags ⟨true, false, true⟩ (after [.enableSpawn 0 1 []]) 0 5 true [7] = .droppedByReceiver := by decide
+
+/-!
+## Part 2 — cookie authentication (Model/Handshake.lean, Model/CookieSel.lean)
+
+Symbolic model: strings are lists of colon-free atoms, SHA-256 is a free (injective) constructor, every
+digest site comes from Generated/Hs.lean.  The adversary of this property is the *replay* adversary:
+it knows everything that was on the wire in earlier sessions and everything the honest party sends in
+the current one, can build strings and hashes from that, and does not know the cookie.  Relaying a
+live session between two honest nodes (man in the middle) is outside this class and outside the
+property.
+-/
+open ErgoVerif.Handshake ErgoVerif.CookieSel
+
+/-- **Honest run.** Two honest nodes complete the main handshake iff they use the same cookie (and
+    carry different names — the code refuses a peer with the node's own name). -/
+theorem C15_honest (cI cA : Cfg) (sI sA idA : Atom) :
+    (isOk (honest cI cA sI sA idA).resI = true ∧ isOk (honest cI cA sI sA idA).resA = true) ↔
+    (cI.cookie = cA.cookie ∧ cI.info.name ≠ cA.info.name) := by
+  by_cases hc : cI.cookie = cA.cookie
+  · by_cases hn : cI.info.name = cA.info.name
+    · have := honest_same_name cI cA sI sA idA hc hn
+      simp [this.1, this.2, isOk, hn]
+    · rw [honest_eq cI cA sI sA idA hc hn]
+      simp [isOk, hc, hn]
+  · have := honest_ne cI cA sI sA idA hc
+    simp [this.1, this.2, isOk, hc]
+
+/-- with different cookies the acceptor stops at the first digest and the initiator sees the
+    connection closed: nobody completes, nothing but the first Hello was sent -/
+theorem C15_honest_mismatch (cI cA : Cfg) (sI sA idA : Atom) (hc : cI.cookie ≠ cA.cookie) :
+    (honest cI cA sI sA idA).resA = .error .digest ∧ (honest cI cA sI sA idA).resI = .error .read :=
+  honest_ne cI cA sI sA idA hc
+
+/-- **Agreement.** After a successful run each end holds the other's name, creation, flags, maximum
+    message size and version exactly as the other configured them, its own flags and size limit, and
+    both hold the same connection id. -/
+theorem C15_agreement (cI cA : Cfg) (sI sA idA : Atom) (rI rA : Result)
+    (hI : (honest cI cA sI sA idA).resI = .ok rI) (hA : (honest cI cA sI sA idA).resA = .ok rA) :
+    rI.peer = cA.info.name ∧ rA.peer = cI.info.name ∧
+    rI.peerCreation = cA.info.creation ∧ rA.peerCreation = cI.info.creation ∧
+    rI.peerFlags = cA.info.flags ∧ rA.peerFlags = cI.info.flags ∧
+    rI.nodeFlags = cI.info.flags ∧ rA.nodeFlags = cA.info.flags ∧
+    rI.peerMaxSize = cA.info.maxSize ∧ rA.peerMaxSize = cI.info.maxSize ∧
+    rI.nodeMaxSize = cI.info.maxSize ∧ rA.nodeMaxSize = cA.info.maxSize ∧
+    rI.peerVersion = cA.info.version ∧ rA.peerVersion = cI.info.version ∧
+    rI.connId = rA.connId ∧ rI.connId = [idA] := by
+  have hok : isOk (honest cI cA sI sA idA).resI = true ∧ isOk (honest cI cA sI sA idA).resA = true := by
+    simp [hI, hA, isOk]
+  obtain ⟨hc, hn⟩ := (C15_honest cI cA sI sA idA).mp hok
+  rw [honest_eq cI cA sI sA idA hc hn] at hI hA
+  simp only [Except.ok.injEq] at hI hA
+  subst hI hA
+  simp [resultOf]
+
+/-- the five messages are all there is: delivering further changes nothing -/
+theorem C15_rounds_stable (cI cA : Cfg) (sI sA idA : Atom) :
+    deliver cI cA sI sA idA 6 = deliver cI cA sI sA idA 5 := deliver_stable cI cA sI sA idA
+
+/-- **Replay adversary against an acceptor, general form.** `K` is anything the adversary knows that
+    does not contain the cookie and in which the acceptor's fresh salt `s` does not occur; it then also
+    learns everything the acceptor sends.  Whatever first Hello it presents (replayed, re-split at
+    colons, made up) and whatever follows, `Accept` does not complete the main handshake. -/
+theorem C15_acceptor_not_fooled (cfg : Cfg) (c : Nat) (hcfg : cfg.cookie = .cookie c)
+    (K : Atom → Prop) (adv : Nat → Prop) (s : Nat) (id : Atom)
+    (hk : ¬ K (.cookie c)) (hfresh : ∀ t, K t → t.occurs s = false)
+    (saltI digestI : Field) (rest : List Msg)
+    (hder : ∀ info dg, rest.head? = some (.intro info dg) →
+      DerivF (learn K ((accept cfg (.nonce s) id [.hello saltI digestI]).sent.flatMap Msg.atoms)) adv dg) :
+    isOk (accept cfg (.nonce s) id (.hello saltI digestI :: rest)).res = false :=
+  acceptor_not_fooled cfg c hcfg K adv s id hk hfresh saltI digestI rest hder
+
+/-- **Replay adversary against an initiator, general form**: `Start` does not complete. -/
+theorem C15_initiator_not_fooled (cfg : Cfg) (c : Nat) (hcfg : cfg.cookie = .cookie c)
+    (K : Atom → Prop) (adv : Nat → Prop) (s : Nat)
+    (hk : ¬ K (.cookie c)) (hfresh : ∀ t, K t → t.occurs s = false) (inbox : List Msg)
+    (hder : ∀ salt2 d2, inbox.head? = some (.hello salt2 d2) →
+      DerivF (learn K ((start cfg (.nonce s) []).sent.flatMap Msg.atoms)) adv d2) :
+    isOk (start cfg (.nonce s) inbox).res = false :=
+  initiator_not_fooled cfg c hcfg K adv s hk hfresh inbox hder
+
+/-- **Replay of recorded sessions, acceptor.** The adversary has recorded any number of earlier
+    successful sessions (main handshakes and joins, any nodes, cookie `c`); the acceptor draws a salt
+    that was not used in them.  No sequence of messages built from the recordings and the acceptor's
+    own replies makes `Accept` complete the main handshake. -/
+theorem C15_replay_acceptor (c : Nat) (ps : List Past) (hwf : ∀ p ∈ ps, p.wf c) (adv : Nat → Prop)
+    (cfg : Cfg) (hcfg : cfg.cookie = .cookie c) (s : Nat) (id : Atom)
+    (hs0 : s ≠ 0) (hs : ∀ p ∈ ps, s ∉ p.nonces)
+    (saltI digestI : Field) (rest : List Msg)
+    (hder : ∀ m ∈ rest, DerivM (learn (Known ps)
+      ((accept cfg (.nonce s) id [.hello saltI digestI]).sent.flatMap Msg.atoms)) adv m) :
+    isOk (accept cfg (.nonce s) id (.hello saltI digestI :: rest)).res = false := by
+  apply acceptor_not_fooled cfg c hcfg (Known ps) adv s id (known_no_cookie c ps hwf)
+    (known_fresh c ps hwf s hs0 hs)
+  intro info dg hh
+  cases rest with
+  | nil => simp at hh
+  | cons m r =>
+    simp only [List.head?_cons, Option.some.injEq] at hh
+    subst hh
+    exact hder (.intro info dg) (by simp)
+
+/-- **Replay of recorded sessions, initiator.** -/
+theorem C15_replay_initiator (c : Nat) (ps : List Past) (hwf : ∀ p ∈ ps, p.wf c) (adv : Nat → Prop)
+    (cfg : Cfg) (hcfg : cfg.cookie = .cookie c) (s : Nat)
+    (hs0 : s ≠ 0) (hs : ∀ p ∈ ps, s ∉ p.nonces) (inbox : List Msg)
+    (hder : ∀ m ∈ inbox, DerivM (learn (Known ps) ((start cfg (.nonce s) []).sent.flatMap Msg.atoms)) adv m) :
+    isOk (start cfg (.nonce s) inbox).res = false := by
+  apply initiator_not_fooled cfg c hcfg (Known ps) adv s (known_no_cookie c ps hwf)
+    (known_fresh c ps hwf s hs0 hs)
+  intro salt2 d2 hh
+  cases inbox with
+  | nil => simp at hh
+  | cons m r =>
+    simp only [List.head?_cons, Option.some.injEq] at hh
+    subst hh
+    exact (hder (.hello salt2 d2) (by simp)).2
+
+/-- **Join, full statement** (what the property asks): a peer that only knows recorded traffic cannot
+    make an acceptor accept a Join. -/
+def C15_join_full : Prop :=
+  ∀ (c : Nat) (ps : List Past), (∀ p ∈ ps, p.wf c) → ∀ (adv : Nat → Prop) (cfg : Cfg), cfg.cookie = .cookie c →
+    ∀ (s id : Atom) (node : Nat) (cid sj dj : Field), cid ≠ [] → sj ≠ [] →
+      DerivM (Known ps) adv (.join node cid sj dj) →
+      isOk (accept cfg s id [.join node cid sj dj]).res = false
+
+def wA : Cfg := { info := ⟨2, 200, 1, 0, 1⟩, cookie := .cookie 1 }
+def wB : Cfg := { info := ⟨3, 300, 1, 0, 1⟩, cookie := .cookie 1 }
+
+/-- D24: the acceptor contributes no nonce to the Join check, so the Join message recorded from an
+    honest session (node 3 joining connection id 7 with salt 5) is accepted again, verbatim. -/
+theorem C15_join_counterexample : ¬ C15_join_full := by
+  intro h
+  have hwf : ∀ p ∈ [Past.join wB wA 5 7], p.wf 1 := by
+    intro p hp; simp only [List.mem_singleton] at hp; subst hp; exact ⟨rfl, rfl⟩
+  have hk : ∀ t ∈ [Atom.nonce 0, H [H [.nonce 7, .nonce 5, .cookie 1], .cookie 1], .nonce 7, .nonce 5,
+      H [.nonce 7, .nonce 5, .cookie 1]], Known [Past.join wB wA 5 7] t := by
+    intro t ht
+    exact ⟨_, List.mem_singleton.mpr rfl, by rw [join_atoms 1 _ _ _ _ (hwf _ (List.mem_singleton.mpr rfl))]; exact ht⟩
+  have := h 1 [Past.join wB wA 5 7] hwf (fun _ => False) wA rfl (.nonce 9) (.nonce 10) 3
+    [.nonce 7] [.nonce 5] [H [.nonce 7, .nonce 5, .cookie 1]] (by simp) (by simp)
+    ⟨fun a ha => .ax (hk a (by simp at ha; simp [ha])),
+     fun a ha => .ax (hk a (by simp at ha; simp [ha])),
+     fun a ha => .ax (hk a (by simp at ha; simp [ha]))⟩
+  rw [show [H [Atom.nonce 7, Atom.nonce 5, Atom.cookie 1]] = [H ([Atom.nonce 7] ++ [Atom.nonce 5] ++ [wA.cookie])] from rfl,
+    accept_join_result] at this
+  simp [isOk] at this
+
+/-- D24, type flaw: no Join needs to have been recorded.  From ONE recorded main handshake (initiator
+    salt 5, acceptor salt 6) the acceptor's Hello digest `H(6:H(5:c):c)` is a valid Join digest for
+    id = "6", salt = `H(5:c)` — and the node name in a Join is not covered by any digest, so the
+    adversary is accepted under a name of its choice (here 99). -/
+theorem C15_join_typeflaw :
+    let ps := [Past.main wB wA 5 6 7]
+    (∀ p ∈ ps, p.wf 1) ∧
+    DerivM (Known ps) (fun _ => False)
+      (.join 99 [.nonce 6] [H [.nonce 5, .cookie 1]] [H [.nonce 6, H [.nonce 5, .cookie 1], .cookie 1]]) ∧
+    (accept wA (.nonce 9) (.nonce 10)
+      [.join 99 [.nonce 6] [H [.nonce 5, .cookie 1]] [H [.nonce 6, H [.nonce 5, .cookie 1], .cookie 1]]]).res =
+      .ok ⟨[.nonce 6], 99, 0, 0, 0, 0, 0, 0⟩ := by
+  intro ps
+  have hwf : ∀ p ∈ ps, p.wf 1 := by
+    intro p hp; simp only [ps, List.mem_singleton] at hp; subst hp; exact ⟨rfl, rfl, by decide⟩
+  have hk : ∀ t ∈ [Atom.nonce 6, H [.nonce 6, H [.nonce 5, .cookie 1], .cookie 1], .nonce 7, .nonce 0, .nonce 0,
+      .nonce 5, H [.nonce 5, .cookie 1], H [.nonce 6, .cookie 1], .nonce 0, .nonce 0], Known ps t := by
+    intro t ht
+    exact ⟨_, List.mem_singleton.mpr rfl, by rw [main_atoms 1 _ _ _ _ _ (hwf _ (List.mem_singleton.mpr rfl))]; exact ht⟩
+  refine ⟨hwf, ⟨fun a ha => .ax (hk a (by simp at ha; simp [ha])),
+     fun a ha => .ax (hk a (by simp at ha; simp [ha])),
+     fun a ha => .ax (hk a (by simp at ha; simp [ha]))⟩, ?_⟩
+  rw [show [H [Atom.nonce 6, H [Atom.nonce 5, Atom.cookie 1], Atom.cookie 1]] =
+    [H ([Atom.nonce 6] ++ [H [Atom.nonce 5, Atom.cookie 1]] ++ [wA.cookie])] from rfl, accept_join_result]
+
+/-- **Join, strongest true statement.** A Join accepted from the replay adversary is never forged: its
+    (id, salt) pair is that of a recorded Join, or the (acceptor salt, initiator digest) pair of a
+    recorded main handshake (the type flaw above).  In particular the connection id it names was the
+    id of a recorded connection or a recorded salt — `connection.Join` then refuses it unless that
+    connection is still alive / no connection under the claimed name exists. -/
+theorem C15_join_partial (c : Nat) (ps : List Past) (hwf : ∀ p ∈ ps, p.wf c) (adv : Nat → Prop)
+    (cfg : Cfg) (hcfg : cfg.cookie = .cookie c) (s id : Atom) (node : Nat) (cid sj dj : Field)
+    (hcid : cid ≠ []) (hsj : sj ≠ [])
+    (hder : DerivM (Known ps) adv (.join node cid sj dj))
+    (hok : isOk (accept cfg s id [.join node cid sj dj]).res = true) :
+    (∃ cJ cA sJ idn, Past.join cJ cA sJ idn ∈ ps ∧ cid = [.nonce idn] ∧ sj = [.nonce sJ]) ∨
+    (∃ cI cA sI sA idA, Past.main cI cA sI sA idA ∈ ps ∧ cid = [.nonce sA] ∧ sj = [H [.nonce sI, .cookie c]]) :=
+  join_accepted_origin c ps hwf adv cfg hcfg s id node cid sj dj hcid hsj hder.2.2 hok
+
+/-- an honest Join with the right cookie is accepted, one with another cookie is refused (non-vacuity
+    of the Join model in both directions) -/
+theorem C15_join_honest (cJ cA : Cfg) (sJ sA idA : Atom) (id : Field) :
+    isOk (honestJoin cJ cA sJ sA idA id).resA = true ↔ cJ.cookie = cA.cookie := by
+  simp only [honestJoin, join, join_digest, accept_join_ok]
+  simp
+
+/-- **Effective cookie.** The acceptor authenticates with its own cookie when one is set, else with the
+    node's; the dialling side with the route's cookie when one is set, else with the node's. -/
+theorem C15_effective_cookie (node opt : Nat) (hn : node ≠ 0) :
+    acceptorCookie node opt = (if opt = 0 then node else opt) ∧
+    routeCookie node opt = (if opt = 0 then node else opt) := by
+  unfold acceptorCookie acceptCookie acceptorField routeCookie
+  by_cases h : opt = 0 <;> simp [h, hn]
+
+/-- the code before the D10 repair used the node cookie for every acceptor (regression statement) -/
+theorem C15_effective_cookie_prefix (node opt : Nat) : acceptorCookieOld node opt = node := by
+  unfold acceptorCookieOld acceptCookie acceptorFieldOld
+  by_cases h : opt = 0 <;> simp [h]
+
+/-- **Connection between two nodes**: node X dials with route cookie option `r`, node Y's acceptor was
+    started with cookie option `a`; they get connected iff the effective cookies coincide (names differ). -/
+theorem C15_connect (iX iY : Info) (nodeX nodeY r a : Nat) (hX : nodeX ≠ 0) (hY : nodeY ≠ 0)
+    (hn : iX.name ≠ iY.name) (sI sA idA : Atom) :
+    let cI : Cfg := { info := iX, cookie := .cookie (routeCookie nodeX r) }
+    let cA : Cfg := { info := iY, cookie := .cookie (acceptorCookie nodeY a) }
+    (isOk (honest cI cA sI sA idA).resI = true ∧ isOk (honest cI cA sI sA idA).resA = true) ↔
+    (if r = 0 then nodeX else r) = (if a = 0 then nodeY else a) := by
+  intro cI cA
+  rw [C15_honest]
+  have h1 := (C15_effective_cookie nodeX r hX).2
+  have h2 := (C15_effective_cookie nodeY a hY).1
+  simp [cI, cA, h1, h2, hn]
+
+/- non-vacuity of the replay theorems' hypotheses: a recorded session exists, a fresh salt exists, and the
+   adversary can indeed derive (and present) recorded messages -/
+example : (Past.main wB wA 5 6 7).wf 1 := ⟨rfl, rfl, by decide⟩
+example : ∀ p ∈ [Past.main wB wA 5 6 7], (11 : Nat) ∉ p.nonces := by
+  intro p hp; simp only [List.mem_singleton] at hp; subst hp; decide
+example : isOk (honest wB wA (.nonce 5) (.nonce 6) (.nonce 7)).resA = true := by decide
+example : isOk (accept wA (.nonce 11) (.nonce 12)
+    [.hello [.nonce 5] [H [.nonce 5, .cookie 1]], .intro wB.info [H [.nonce 6, .cookie 1]], .accept emptyF 0 emptyF]).res = false := by
+  decide
 
 end ErgoVerif.Props.C15
